@@ -166,6 +166,7 @@ LEVEL_TEXT = ('Proof: the residue->representative cascade regenerated from the s
               'residues, kernel evaluation) to be a valid reduction of the documented partition; the homomorphism laws, '
               'rejection of other sizes and the user-alphabet acceptance rule are theorems for all sequences/dicts; the '
               'glue (argument handling, join, alphabet list) is tied by in-Coq differential correspondence.')
+LEVEL_NOTE_MINIPY = ' Whole-function semantic ties (source translated to Core/MiniPy terms on every run, proved equal to the model for all inputs): the user-alphabet block of reduce_alphabet.'
 LEVEL_NOTE = ('Trusts: Coq kernel; py2coq translator for reduce_alphabet; Spec/Alphabets.v transcription of the docstring '
               'table; harness canonicalisation of dict arguments. Theorems closed under the global context (no axioms).')
 TECHNIQUE = 'Coq proof (finite exhaustive vm_compute + list induction) over translator-generated cascade; differential correspondence'
